@@ -509,11 +509,11 @@ def validate(ctx, recs, label, report=True):
     return out
 
 
-def norm_records(ctx, cases, nvar):
+def norm_records(ctx, cases, nvar, prefix="n"):
     items = []
     for i, c in enumerate(cases):
         for j, v in enumerate(norm_variants(c["c"], ctx.rng, nvar)):
-            items.append(("n%d_%d" % (i, j), c["c"], v))
+            items.append(("%s%d_%d" % (prefix, i, j), c["c"], v))
     recs = []
     for r in pmap(norm_record, items, chunk=256):
         if "skip" in r:
@@ -525,8 +525,15 @@ def norm_records(ctx, cases, nvar):
     return recs
 
 
+PREV_DEFAULTS = {"PrevPieces": {0}, "PrevLen": 1, "PrevAxisMenu": TLA("{}"), "PrevLimits": TLA("<<{1}, {1}, {1}>>")}
+
+
+def _consts(c):
+    return dict(PREV_DEFAULTS, **c)
+
+
 def norm_phase(ctx, consts, nvar, cap, label="norm"):
-    spec, cfg = ctx.model(ctx.spec("array", "RechunkMC.tla"), consts,
+    spec, cfg = ctx.model(ctx.spec("array", "RechunkMC.tla"), _consts(consts),
                           invariants=["WitnessOK", "ContractRejects", "UniformStrict"])
     cases, _ = ctx.tlc_cases(spec, cfg, label="design+cases:" + label, timeout=1800)
     total = len(cases)
@@ -587,7 +594,7 @@ def rechunk_replay(ctx, items):
 
 
 def rechunk_phase(ctx, consts, caps, nsettings, label="rechunk"):
-    spec, cfg = ctx.model(ctx.spec("array", "RechunkMC.tla"), consts,
+    spec, cfg = ctx.model(ctx.spec("array", "RechunkMC.tla"), _consts(consts),
                           invariants=["RefTiles", "BlocksFromPieces", "TargetCovers", "TrivialPlanOK"])
     cases, _ = ctx.tlc_cases(spec, cfg, label="design+cases:" + label, timeout=1800)
     total = len(cases)
@@ -615,6 +622,50 @@ def rechunk_phase(ctx, consts, caps, nsettings, label="rechunk"):
     return recs, total, sampled, multi
 
 
+PREV_MENU = "{<<5, 2, 2, 2>>, <<2, 2, 5, 0>>, <<12, 0>>, <<2, 2, 2, 2>>, <<0, 5, 5>>, <<12, 2, 2>>, <<5>>, <<2, 0, 2, 12>>}"
+
+
+def prev_consts(ctx, small=False):
+    """previous_chunks universe: pieces 2 (small), 5 (inside the tolerance band 1.25**(1/n) .. 1.25 of twice it), 12
+    (oversize, and in the band of 10), 0; every order, length <= PrevLen."""
+    return _consts({"Fam": "prev", "N": -1, "Z": 0, "Shapes": TLA("{}"), "ZShapes": TLA("{}"), "Limits": {1}, "Limits3": {1},
+                    "Itemsizes": {1} if (small or ctx.quick) else {1, 8},
+                    "PrevPieces": {0, 2, 5, 12}, "PrevLen": 3 if small else ctx.pick(4, 5), "PrevAxisMenu": TLA(PREV_MENU),
+                    "PrevLimits": TLA("<<{4, 16}, {16, 100}, {64}>>" if small else
+                                      ctx.pick("<<{4, 16, 64}, {16, 100}, {64}>>",
+                                               "<<{2, 4, 8, 10, 16, 64}, {4, 16, 25, 64, 100}, {8, 64, 125, 512}>>"))})
+
+
+def prev_phase(ctx, consts, cap, nrechunk, label="prev"):
+    """Automatic chunking guided by previous_chunks: normalize_chunks on every enumerated case, and x.rechunk('auto')
+    on real arrays chunked like the previous chunking for a sample of the small ones."""
+    spec, cfg = ctx.model(ctx.spec("array", "RechunkMC.tla"), consts, invariants=["WitnessOK", "ContractRejects"])
+    cases, _ = ctx.tlc_cases(spec, cfg, label="design+cases:" + label, timeout=1800)
+    total = len(cases)
+    sampled = len(cases) > cap
+    if sampled:
+        cases = ctx.rng.sample(cases, cap)
+    recs = norm_records(ctx, cases, 1, prefix="pn")
+    small = [c["c"] for c in cases if int(np.prod(c["c"]["shape"])) <= 300 and c["c"]["limit"] % c["c"]["itemsize"] == 0]
+    items = []
+    for i, c in enumerate(ctx.rng.sample(small, min(len(small), nrechunk))):
+        st = {"threshold": ctx.rng.choice([None, 1]), "bsl": (c["limit"] // c["itemsize"]) * 8, "method": None, "cfgm": False,
+              "tol1": ctx.rng.random() < 0.3}
+        items.append(("p%d" % i, {"shape": c["shape"], "chunks": c["prev"], "spec": [{"k": "auto"} for _ in c["shape"]]}, st,
+                      ctx.rng.choice(["scalar", "dict", "tuple"])))
+    for r in pmap(rechunk_record, items):
+        if "skip" in r:
+            ctx.skip(r["skip"])
+            continue
+        rec = r["rec"]
+        recs.append(rec)
+        ctx.count(("prec", rec["shape"], rec["chunks"], rec["settings"], rec["spell"]),
+                  rec["obs"]["raised"] == "" and len(rec["obs"]["cells"]) > 0)
+    if cases:
+        ctx.sample({"case": cases[0]["c"], "expected": cases[0]["e"]})
+    return recs, total, sampled
+
+
 def random_phase(ctx, n):
     items = random_rechunks(ctx.rng, n)
     recs, inner_recs, multi = [], [], 0
@@ -636,28 +687,29 @@ def random_phase(ctx, n):
 
 
 def run(ctx):
-    ext = ctx.pick([0, 1, 5, 12], [0, 1, 5, 7, 12])
+    ext = ctx.pick([0, 5, 12], [0, 1, 5, 7, 12])
     shapes = [[a] for a in [0, 1, 5, 7, 12]] + [[a, b] for a in ext for b in ext]
     shapes += ctx.pick([[5, 1, 7], [0, 5, 12]],
                        [[5, 1, 7], [0, 5, 12], [7, 7, 7], [12, 5, 1], [1, 0, 5], [12, 12, 12], [5, 7, 0], [1, 1, 1]])
     nrecs, t1, s1 = norm_phase(ctx, {"Fam": "norm", "N": -1, "Z": 0, "Shapes": TLA(_tla_shapes(shapes)), "ZShapes": TLA("{}"),
-                                     "Limits": set(ctx.pick([1, 4, 16, 64], [1, 2, 4, 8, 16, 64])),
+                                     "Limits": set(ctx.pick([1, 4, 64], [1, 2, 4, 8, 16, 64])),
                                      "Limits3": set(ctx.pick([2, 16], [1, 4, 16, 64])),
                                      "Itemsizes": set(ctx.pick([1, 8], [1, 4, 8]))},
-                               ctx.pick(1, 2), ctx.pick(9000, 60000))
-    nd_shapes = ctx.pick("{<<2, 3>>, <<4, 3>>, <<2, 2, 2>>}", "{<<2, 3>>, <<4, 3>>, <<4, 4>>, <<5, 4>>, <<2, 3, 2>>, <<3, 3, 3>>}")
-    rrecs, t2, s2, m2 = rechunk_phase(ctx, {"Fam": "rechunk", "N": ctx.pick(6, 7), "Z": 3, "Shapes": TLA(nd_shapes),
-                                            "ZShapes": TLA(ctx.pick("{<<2, 2>>, <<0, 3>>}",
+                               ctx.pick(1, 2), ctx.pick(4000, 60000))
+    nd_shapes = ctx.pick("{<<2, 3>>, <<4, 3>>}", "{<<2, 3>>, <<4, 3>>, <<4, 4>>, <<5, 4>>, <<2, 3, 2>>, <<3, 3, 3>>}")
+    rrecs, t2, s2, m2 = rechunk_phase(ctx, {"Fam": "rechunk", "N": ctx.pick(5, 7), "Z": ctx.pick(2, 3), "Shapes": TLA(nd_shapes),
+                                            "ZShapes": TLA(ctx.pick("{<<2, 1>>, <<1, 2>>, <<0, 3>>}",
                                                                     "{<<2, 2>>, <<1, 3>>, <<0, 3>>, <<3, 2>>, <<2, 0>>}")),
                                             "Limits": {1}, "Limits3": {1}, "Itemsizes": {1}},
-                                      {"1d": 10 ** 9, "nd": ctx.pick(1200, 9000), "zero": ctx.pick(700, 4000)}, ctx.pick(2, 3))
-    qrecs, m3 = random_phase(ctx, ctx.pick(1000, 10000))
-    validate(ctx, nrecs + rrecs + qrecs, "all-recorded-calls")
+                                      {"1d": 10 ** 9, "nd": ctx.pick(600, 9000), "zero": ctx.pick(400, 4000)}, ctx.pick(2, 3))
+    precs, t3, s3 = prev_phase(ctx, prev_consts(ctx), ctx.pick(10 ** 9, 60000), ctx.pick(600, 8000))
+    qrecs, m3 = random_phase(ctx, ctx.pick(600, 10000))
+    validate(ctx, nrecs + precs + rrecs + qrecs, "all-recorded-calls")
     md = sum(1 for r in rrecs if r["fam"] == "plan" and len(r["steps"]) > 1)
     if m2 + md == 0 or m3 == 0:
         raise MachineryError("vacuous: no multi-stage rechunk plan was exercised (%d, %d, %d)" % (m2, md, m3))
-    ctx.exhaustive = not (s1 or s2)
-    ctx.extra["cases_enumerated_by_tlc"] = t1 + t2
+    ctx.exhaustive = not (s1 or s2 or s3)
+    ctx.extra["cases_enumerated_by_tlc"] = t1 + t2 + t3
     ctx.extra["multi_stage_plans"] = {"replayed_rechunks": m2, "direct_plan_calls": md, "random_rechunks": m3}
     ctx.rule = ("cases = TLC-enumerated normalize_chunks grid points x spellings, TLC-enumerated (source, target) chunking pairs x "
                 "rechunk settings, direct old_to_new / plan_rechunk calls, recorded random rechunks; non-trivial = no expected "
@@ -714,12 +766,12 @@ def _validate_quiet(ctx, recs):
 # --------------------------------------------------------------------------- selftest
 def _selftest_cases(ctx):
     spec, cfg = ctx.model(ctx.spec("array", "RechunkMC.tla"),
-                          {"Fam": "norm", "N": -1, "Z": 0, "Shapes": TLA("{<<5>>, <<12>>, <<7, 5>>}"), "ZShapes": TLA("{}"),
-                           "Limits": {4, 16}, "Limits3": {4}, "Itemsizes": {1, 4}}, invariants=["WitnessOK"])
+                          _consts({"Fam": "norm", "N": -1, "Z": 0, "Shapes": TLA("{<<5>>, <<12>>, <<7, 5>>}"), "ZShapes": TLA("{}"),
+                                   "Limits": {4, 16}, "Limits3": {4}, "Itemsizes": {1, 4}}), invariants=["WitnessOK"])
     ncases, _ = ctx.tlc_cases(spec, cfg, label="selftest:norm-cases")
     spec, cfg = ctx.model(ctx.spec("array", "RechunkMC.tla"),
-                          {"Fam": "rechunk", "N": 4, "Z": 0, "Shapes": TLA("{<<2, 3>>}"), "ZShapes": TLA("{}"),
-                           "Limits": {1}, "Limits3": {1}, "Itemsizes": {1}}, invariants=["RefTiles"])
+                          _consts({"Fam": "rechunk", "N": 4, "Z": 0, "Shapes": TLA("{<<2, 3>>}"), "ZShapes": TLA("{}"),
+                                   "Limits": {1}, "Limits3": {1}, "Itemsizes": {1}}), invariants=["RefTiles"])
     rcases, _ = ctx.tlc_cases(spec, cfg, label="selftest:rechunk-cases")
     return ncases, rcases
 
@@ -756,7 +808,9 @@ def selftest(ctx):
     _install_recorders()
     ok = True
     ncases, rcases = _selftest_cases(ctx)
-    base_n = _selftest_norm(ctx, ncases, "b")
+    spec, cfg = ctx.model(ctx.spec("array", "RechunkMC.tla"), prev_consts(ctx, small=True), invariants=["WitnessOK"])
+    pcases, _ = ctx.tlc_cases(spec, cfg, label="selftest:prev-cases")
+    base_n = _selftest_norm(ctx, ncases, "b") + _selftest_norm(ctx, pcases, "bp")
     base_wrong, base_r = _selftest_rechunk(rcases, "b")
     batches = {"base": base_n + base_r}
     replay_wrong = {"base": base_wrong}
@@ -765,6 +819,13 @@ def selftest(ctx):
          C, "round_to", "return max(1, int(c))", "return max(1, int(c) + 1)", "norm"),
         ("M2 core.blockdims_from_blockshape: remainder block dropped",
          C, "blockdims_from_blockshape", "+ ((d % bd,) if d % bd else ())", "", "norm"),
+        ("M5 core.auto_chunks: per-axis share of the chunk-size tolerance replaced by the full tolerance  [block may reach 1.25**n x limit]",
+         C, "auto_chunks", "this_chunksize_tolerance = chunksize_tolerance ** (1 / len(last_autos))",
+         "this_chunksize_tolerance = chunksize_tolerance", "prev"),
+        ("M6 core.auto_chunks: final flush of the previous-chunk merge loop without its `new_chunk > 0` guard  [zero-width chunk emitted]",
+         C, "auto_chunks", "                    if new_chunk > 0:\n                        dimension_result.append(new_chunk)\n\n"
+                           "                result[a]",
+         "                    dimension_result.append(new_chunk)\n\n                result[a]", "prev"),
         ("M3 rechunk._intersect_1d: end = br - last_br + start -> br - last_br  [dropped operand]",
          R, "_intersect_1d", "end = br - last_br + start", "end = br - last_br", "rechunk"),
         ("M4 rechunk.find_merge_rechunk: chunk_limit off by a factor (int(limit * width / block) -> int(limit * width))",
@@ -776,6 +837,9 @@ def selftest(ctx):
         with mutant(mod, fn, old, new):
             if kind == "norm":
                 batches[tag] = _selftest_norm(ctx, ncases, tag)
+                replay_wrong[tag] = 0
+            elif kind == "prev":
+                batches[tag] = _selftest_norm(ctx, pcases, tag)
                 replay_wrong[tag] = 0
             else:
                 replay_wrong[tag], batches[tag] = _selftest_rechunk(rcases, tag)
